@@ -20,7 +20,7 @@ META = {
 }
 
 NAMES = ['x', '.hidden', '-dash', 'a b', 'p%41q', 'new\nline', '\u00fcn\u00ef', 'files', 'x.trashinfo', 'x_1',
-         'n' * 200, ' lead', 'trail ', 'a=b', '[Trash Info]', 'Path=z']
+         'n' * 200, ' lead', 'trail ', 'a=b', '[Trash Info]', 'Path=z', '..notes', '...']
 LAYOUTS = ['home', 'top', 'alt', 'trash-dir', 'trash-dir-through-a-link-on-another-volume', 'home-fallback-across-volumes']
 NL = len(LAYOUTS)
 SORTS = [None, 'date', 'path', 'none']
@@ -179,10 +179,10 @@ def _case(kind, name, layout, sort, frm, parent_removed, noise, overwrite=False)
 def w_main(kind: int, name: int, layout: int, sort: int) -> str:
     """
     pre: PARTITION is None or kind == PARTITION
-    pre: 0 <= kind < 6 and 0 <= name < 16 and 0 <= layout < NL and 0 <= sort < 4
+    pre: 0 <= kind < 6 and 0 <= name < 18 and 0 <= layout < NL and 0 <= sort < 4
     post: _ == ''
     """
-    return _case(rt.sel(kind, 6), rt.sel(name, 16), rt.sel(layout, NL), rt.sel(sort, 4), 0, False, 0)
+    return _case(rt.sel(kind, 6), rt.sel(name, 18), rt.sel(layout, NL), rt.sel(sort, 4), 0, False, 0)
 
 
 def w_ow(kind: int, layout: int, frm: int, parent_removed: bool, sort: int) -> str:
@@ -207,10 +207,10 @@ def w_from(kind: int, layout: int, frm: int, parent_removed: bool, noise: int, n
 def w_full(kind: int, name: int, layout: int, sort: int, frm: int, parent_removed: bool, noise: int) -> str:
     """
     pre: PARTITION is None or (kind == PARTITION[0] and layout == PARTITION[1])
-    pre: 0 <= kind < 6 and 0 <= name < 16 and 0 <= layout < NL and 0 <= sort < 4 and 0 <= frm < 5 and 0 <= noise < 4
+    pre: 0 <= kind < 6 and 0 <= name < 18 and 0 <= layout < NL and 0 <= sort < 4 and 0 <= frm < 5 and 0 <= noise < 4
     post: _ == ''
     """
-    return _case(rt.sel(kind, 6), rt.sel(name, 16), rt.sel(layout, NL), rt.sel(sort, 4), rt.sel(frm, 5),
+    return _case(rt.sel(kind, 6), rt.sel(name, 18), rt.sel(layout, NL), rt.sel(sort, 4), rt.sel(frm, 5),
                  rt.selb(parent_removed), rt.sel(noise, 4))
 
 
@@ -256,7 +256,7 @@ def obligations(tier):
            bounds='volume: any mount-point-shaped str len<=3; parent = volume or volume/rest with rest any str len<=3 without leading/trailing slash'),
         CH('W_kind_name_layout_sort', MOD, 'w_main', timeout=900, partitions=list(range(6)), engine='W',
            regime='selector', encodes=enc, stubs=K.STUBS,
-           bounds='6 kinds x 16 names x 6 layouts (incl. --trash-dir through a symlink crossing a mount point, and the home fallback across volumes) x 4 sort modes; restore from the original directory'),
+           bounds='6 kinds x 18 names x 6 layouts (incl. --trash-dir through a symlink crossing a mount point, and the home fallback across volumes) x 4 sort modes; restore from the original directory'),
         CH('W_from_parent_noise', MOD, 'w_from', timeout=900, partitions=list(range(6)), engine='W',
            regime='selector', encodes=enc, stubs=K.STUBS,
            bounds='6 kinds x 6 layouts x 5 restore-from x parent removed x 4 noise histories x 3 names x 3 sorts'),
@@ -266,6 +266,6 @@ def obligations(tier):
     if tier == 'thorough':
         obs.append(CH('W_full_product', MOD, 'w_full', timeout=3000, twin=False, engine='W', regime='selector',
                       partitions=[(k, l) for k in range(6) for l in range(NL)], encodes=enc, stubs=K.STUBS,
-                      bounds='6 x 16 x 6 x 4 x 5 x 2 x 4 full product'))
+                      bounds='6 x 18 x 6 x 4 x 5 x 2 x 4 full product'))
     from harness import kpair
     return kpair.obligations(tier) + obs
